@@ -88,6 +88,10 @@ type Kube struct {
 	podCache  map[string]*objCache
 
 	listErrNext map[string]bool
+
+	// shared object handed to the controller -> pristine copy of the same cache entry (rebuilt at every List)
+	pristineOfNode map[*v1.Node]*v1.Node
+	pristineOfPod  map[*v1.Pod]*v1.Pod
 }
 
 func newKube(w *World) *Kube {
@@ -214,23 +218,10 @@ func (k *Kube) syncAllCaches() {
 	}
 }
 
-func (k *Kube) pristineNode(name string) *v1.Node {
-	for _, c := range k.nodeCache {
-		if n, ok := c.nodesPristine[name]; ok {
-			return n
-		}
-	}
-	return nil
-}
-
-func (k *Kube) pristinePod(name string) *v1.Pod {
-	for _, c := range k.podCache {
-		if p, ok := c.podsPristine[name]; ok {
-			return p
-		}
-	}
-	return nil
-}
+// pristine copies are looked up by the identity of the shared object that was listed (names can repeat:
+// a lagging cache of one owner may still hold a pod whose name another owner's pod has taken over)
+func (k *Kube) pristineNode(n *v1.Node) *v1.Node { return k.pristineOfNode[n] }
+func (k *Kube) pristinePod(p *v1.Pod) *v1.Pod     { return k.pristineOfPod[p] }
 
 // ---- simulated listers (v1lister interfaces over the caches) ---------------
 
@@ -315,6 +306,10 @@ func (l *simNodeLister) List(sel labels.Selector) ([]*v1.Node, error) {
 			pristine = append(pristine, c.nodesPristine[names[i]])
 		}
 	}
+	k.pristineOfNode = make(map[*v1.Node]*v1.Node, len(out))
+	for i := range out {
+		k.pristineOfNode[out[i]] = pristine[i]
+	}
 	if w.gscan != nil {
 		w.gscan.AllNodes = pristine
 	}
@@ -342,6 +337,10 @@ func (l *simPodLister) List(sel labels.Selector) ([]*v1.Pod, error) {
 			out = append(out, c.pods[names[i]])
 			pristine = append(pristine, c.podsPristine[names[i]])
 		}
+	}
+	k.pristineOfPod = make(map[*v1.Pod]*v1.Pod, len(out))
+	for i := range out {
+		k.pristineOfPod[out[i]] = pristine[i]
 	}
 	if w.gscan != nil {
 		w.gscan.AllPods = pristine
